@@ -436,6 +436,163 @@ type prefix struct {
 	Hist []map[string]any `json:"hist"`
 }
 
+// applyStateOp performs one state-changing operation of a history (new, nil, decode, decode2, set, setgroup) on vars
+// and returns the outcome of a decode as text ("" otherwise); panics are the caller's business.
+func applyStateOp(p prefix, vars map[string]*handle, op map[string]any) string {
+	lvl := p.Lvl[0]
+	switch op["op"] {
+	case "new":
+		vars["r"] = newHandle(p.Fam, lvl, true)
+	case "nil":
+		vars["r"] = newHandle(p.Fam, lvl, false)
+	case "decode", "decode2":
+		x, err := vars["r"].decode(unescape(op["s"].(string)))
+		if op["op"] == "decode" {
+			vars["x"] = x
+		} else {
+			vars["y"] = x
+		}
+		return fmt.Sprintf("ok=%v sent=%v", err == nil, sentinelsOf(err))
+	case "set":
+		tgt := vars["x"]
+		if tgt == nil {
+			tgt = vars["r"]
+		}
+		tgt.setField(op["n"].(string), op["c"].(string))
+	case "setgroup":
+		tgt := vars["x"]
+		if tgt == nil {
+			tgt = vars["r"]
+		}
+		rg := map[string][2]int{"B": {0, 8}, "T": {8, 11}, "E": {11, 22}}
+		if p.Fam == "v2" {
+			rg = map[string][2]int{"B": {0, 6}, "T": {6, 9}, "E": {9, 14}}
+		}
+		for i := rg[op["g"].(string)][0]; i < rg[op["g"].(string)][1]; i++ {
+			d := defsOf(p.Fam)[i]
+			code := "?"
+			if op["c"].(string) != "?" {
+				code = d.Codes[0].Code
+			}
+			tgt.setField(d.Name, code)
+		}
+	}
+	return ""
+}
+
+// allCalls lists every (variable, accessor, query) of the current variables in a canonical order.
+type objCall struct {
+	v   string
+	via byte
+	q   string
+}
+
+func allCalls(vars map[string]*handle) []objCall {
+	var calls []objCall
+	for n, h := range vars {
+		vias := []byte{h.lvl}
+		if h.lvl != 'B' {
+			vias = append(vias, 'B')
+		}
+		if h.lvl == 'E' {
+			vias = append(vias, 'T')
+		}
+		for _, via := range vias {
+			vh := func() (r *handle) {
+				defer func() { recover() }()
+				return h.view(via)
+			}()
+			if vh == nil {
+				continue
+			}
+			for _, q := range queriesFor(vh) {
+				calls = append(calls, objCall{n, via, q})
+			}
+		}
+	}
+	sort.Slice(calls, func(i, j int) bool {
+		return calls[i].v+string(calls[i].via)+calls[i].q < calls[j].v+string(calls[j].via)+calls[j].q
+	})
+	return calls
+}
+
+func doCall(vars map[string]*handle, c objCall) (out string) {
+	defer func() {
+		if r := recover(); r != nil {
+			out = "panic " + asciiSafe(fmt.Sprint(r))
+		}
+	}()
+	r := vars[c.v].view(c.via).query(c.q)
+	return fmt.Sprintf("%s.%c.%s -> err=%v sent=%v str=%s sc=%d sev=%s panic=%s", c.v, c.via, c.q, r.Err, r.Sent, r.Str, r.Sc, r.Sev, r.Panic)
+}
+
+// replayHistory runs the state-changing operations of a history on fresh variables; with inject > 0 it asks that many
+// seeded queries of the live variables BEFORE every operation (also of the still undecoded receiver).  It returns the
+// decode outcomes, the final snapshots and the results of one canonical battery: queries being read-only, the two
+// runs (with and without injected queries) must return the same list.
+func replayHistory(p prefix, rng *rand.Rand, inject int) []string {
+	vars := map[string]*handle{}
+	var out []string
+	for _, op := range p.Hist {
+		if inject > 0 && len(vars) > 0 {
+			calls := allCalls(vars)
+			for k := 0; k < inject && len(calls) > 0; k++ {
+				doCall(vars, calls[rng.Intn(len(calls))])
+			}
+			if p.Fam == "v3" && rng.Intn(2) == 0 {
+				for _, h := range vars {
+					if !h.isNil() {
+						func() {
+							defer func() { recover() }()
+							switch h.lvl {
+							case 'B':
+								report.NewBase(h.b3)
+							case 'T':
+								report.NewTemporal(h.t3)
+							default:
+								report.NewEnvironmental(h.e3)
+							}
+						}()
+					}
+				}
+			}
+		}
+		func() {
+			defer func() {
+				if r := recover(); r != nil {
+					out = append(out, "panic in "+fmt.Sprint(op["op"]))
+				}
+			}()
+			if o := applyStateOp(p, vars, op); o != "" {
+				out = append(out, fmt.Sprintf("%v '%v' -> %s", op["op"], op["s"], o))
+			}
+		}()
+	}
+	names := make([]string, 0, len(vars))
+	for n := range vars {
+		names = append(names, n)
+	}
+	sort.Strings(names)
+	for _, n := range names {
+		sn := vars[n].snapshot()
+		out = append(out, fmt.Sprintf("snapshot %s: nil=%v ver=%s f=%s names=%s", n, sn.Nil, sn.Ver, sn.F, sn.Names))
+	}
+	for _, c := range allCalls(vars) {
+		out = append(out, doCall(vars, c))
+	}
+	return out
+}
+
+type injectEvent struct {
+	K    string `json:"k"`
+	H    int    `json:"h"`
+	I    int    `json:"i"`
+	N    int    `json:"items"` // items compared
+	Same bool   `json:"same"` // the run with injected queries returned what the plain run returned
+	A    string `json:"a"`    // first differing item, plain run
+	B    string `json:"b"`    // first differing item, run with injected queries
+}
+
 func runPrefix(hid int, p prefix, rng *rand.Rand, rec *Recorder, reps int) {
 	vars := map[string]*handle{}
 	step := 0
@@ -590,6 +747,27 @@ func runPrefix(hid int, p prefix, rng *rand.Rand, rec *Recorder, reps int) {
 			}()
 			emit(map[string]any{"op": "query", "x": n, "via": string(h.lvl), "q": "Report"}, ev)
 		}
+	}
+	// queries interleaved with the state-changing operations (also before the first Decode, on the untouched
+	// receiver): decode outcomes, final snapshots and a canonical battery must equal those of the plain run
+	plain := replayHistory(p, rng, 0)
+	for k, inject := range []int{1, 4} {
+		inj := replayHistory(p, rng, inject)
+		ev := injectEvent{K: "inject", H: hid, I: 100000 + k, N: len(plain), Same: true}
+		for i := 0; i < len(plain) || i < len(inj); i++ {
+			a, b := "(missing)", "(missing)"
+			if i < len(plain) {
+				a = plain[i]
+			}
+			if i < len(inj) {
+				b = inj[i]
+			}
+			if a != b {
+				ev.Same, ev.A, ev.B = false, asciiSafe(a), asciiSafe(b)
+				break
+			}
+		}
+		rec.Add(evBody(ev), fmt.Sprintf("history %d with %d injected queries per step", hid, inject))
 	}
 }
 
